@@ -136,8 +136,8 @@ Fixpoint render (c : ctx) (p : pz) (t : term) {struct t} : res (str * pz) :=
       | Some z =>
           if should_parameterize v && allow then
             let '(txt, z') := create_param c z vid in Ok (alias_sql c txt alias, Some z')
-          else Ok (alias_sql c (value_sql w (secondary_quote_char c) v) alias, p)
-      | None => Ok (alias_sql c (value_sql w (secondary_quote_char c) v) alias, p)
+          else Ok (alias_sql c (value_sql w (dial_eqb (dialect c) MYSQL) (secondary_quote_char c) v) alias, p)
+      | None => Ok (alias_sql c (value_sql w (dial_eqb (dialect c) MYSQL) (secondary_quote_char c) v) alias, p)
       end
   | TValTerm w t' vid alias allow =>
       match p with
